@@ -285,6 +285,10 @@ def programs(tier, tagged, pkg='P3'):
 
 # --------------------------------------------------------------------------- 1. the arithmetic kernels
 
+def _n_rxns(prog):
+    return sum(_n_rxns(m) for m in prog['members']) if prog['kind'] == 'system' else len(prog['rxns'])
+
+
 def kernel_configs(tier):
     out = []
     for tagged in (False, True):
@@ -292,7 +296,8 @@ def kernel_configs(tier):
             for fn in ('_reaction', '_conversion'):
                 if tier == 'quick' and fn == '_conversion' and not pname.startswith(('single3[Water', 'parallel[a>b|b', 'series[a>b;b', 'system[par')):
                     continue
-                out.append({'name': f'{"tagged" if tagged else "plain"};{pname};{fn}', 'tagged': tagged, 'prog': prog, 'fn': fn})
+                unit = _n_rxns(prog) >= 3 or 'a>b;a>bc' in pname
+                out.append({'name': f'{"tagged" if tagged else "plain"};{pname};{fn}' + (';unit' if unit else ''), 'tagged': tagged, 'prog': prog, 'fn': fn, 'unit': unit})
     return out
 
 
@@ -311,7 +316,7 @@ def kernel(w, cfg):
     chems = W.thermo(P3).chemicals
     mw = _mw(P3)
     rows = weights(w, P3)
-    prog, obj = make_program(w, cfg['prog'], 'mol', rows, mw, chems, tagged)
+    prog, obj = make_program(w, cfg['prog'], 'mol', rows, mw, chems, tagged, unit_reactant=cfg.get('unit', False))
     mat, read, feed, _ = make_material(w, 'sv', 'P3', tagged)
     pre = snapshot_rxn(obj)
     expected = spec_apply(prog, feed)
@@ -337,3 +342,97 @@ def kernel(w, cfg):
     w.ensure('reaction object unchanged', same_rxn(w, pre, snapshot_rxn(obj)))
     w.canary('canary: reactant consumed = X * feed + 1', w.eq(feed[sp0.r] - got[sp0.r], sp0.X * feed[sp0.r] + 1))
     w.note(expected=expected, got=got)
+
+
+# --------------------------------------------------------------------------- 2. __call__ on every kind of material
+
+def call_configs(tier):
+    out = []
+    for tagged in (False, True):
+        progs = programs(tier, tagged)
+        if tier == 'quick':
+            keep = ('single3[Water]', 'single3[Ethanol]', 'single2[Methanol>Water]', 'parallel[a>b|b>c]', 'series[a>b;b>c]',
+                    'parallel[a>b|a>bc]', 'system[par(a>b|b>c);c>a]')
+            progs = {k: v for k, v in progs.items() if k in keep}
+        mats = [('s', 'P3'), ('s', 'Q3'), ('sv', 'P3'), ('nd', 'P3')]
+        if not tagged: mats += [('s', 'Q4'), ('massview', 'P3')]
+        elif tier == 'thorough': mats += [('s', 'Q4')]
+        for pname, prog in progs.items():
+            for mat, pkg in mats:
+                for basis in ('mol', 'wt'):
+                    if mat == 'massview' and basis == 'mol':
+                        continue        # a mass view is data in kg/hr: only a wt-basis stoichiometry is meaningful on it
+                    if tier == 'quick':
+                        full = pname in ('single3[Water]', 'parallel[a>b|b>c]')
+                        if not full and (mat, pkg, basis) not in (('s', 'P3', 'mol'), ('s', 'Q3', 'wt')):
+                            continue
+                    unit = _n_rxns(prog) >= 2
+                    out.append({'name': f'{"tagged" if tagged else "plain"};{pname};{mat}:{pkg};{basis}' + (';unit' if unit else ''),
+                                'tagged': tagged, 'prog': prog, 'mat': mat, 'pkg': pkg, 'basis': basis, 'unit': unit})
+    return out
+
+
+def _array_units(state, mw, by_mass):
+    return {k: (v * mw[k[1]] if by_mass else v) for k, v in state.items()}
+
+
+@group('C05/call', configs=call_configs, l0=True,
+       functions=['thermosteam.reaction._reaction:Reaction.__call__', 'thermosteam.reaction._reaction:as_material_array',
+                  'thermosteam.reaction._reaction:Reaction._reaction', 'thermosteam.reaction._reaction:ParallelReaction._reaction',
+                  'thermosteam.reaction._reaction:SeriesReaction._reaction', 'thermosteam.reaction._reaction:ReactionSystem._reaction',
+                  'thermosteam.indexer:ChemicalIndexer.reset_chemicals', 'thermosteam.indexer:MaterialIndexer.reset_chemicals',
+                  'thermosteam.base.dictionary_view:MassFlowDict'])
+def call(w, cfg):
+    """reaction(material): stoichiometric update, conservation, no negative flow on normal return, InfeasibleRegion only
+    when a flow would be negative; streams (same / other package), MultiStreams, sparse data, ndarrays, mass views."""
+    W.reset_caches()
+    tagged, basis, kind, pkg = cfg['tagged'], cfg['basis'], cfg['mat'], cfg['pkg']
+    IDs = PKG[pkg]
+    chems = W.thermo(P3).chemicals
+    mw = _mw(IDs)
+    rows = weights(w, IDs)
+    prog, obj = make_program(w, cfg['prog'], basis, rows, mw, chems, tagged, unit_reactant=cfg.get('unit', False))
+    mat, read, feed, stream = make_material(w, kind, pkg, tagged)
+    pre = snapshot_rxn(obj)
+    # units of the data the reaction acts on: mass for a stream reacted by a wt-basis reaction and for mass views,
+    # otherwise the material's own numbers (mol for streams; arrays are reacted "regardless of basis")
+    stream_by_mass = (kind == 's' and basis == 'wt') or kind == 'massview'
+    u = _array_units(feed, mw, stream_by_mass)
+    e = spec_apply(prog, u)
+    try:
+        obj(mat)
+        outcome = 'ok'
+    except InfeasibleRegion:
+        outcome = 'infeasible'
+    except UndefinedChemicalAlias:
+        outcome = 'undefined'
+    w.note(outcome=outcome)
+    w.ensure('reaction object unchanged', same_rxn(w, pre, snapshot_rxn(obj)))
+    extra = [k for k in feed if k[1] not in P3]
+    if outcome == 'infeasible':
+        w.ensure('InfeasibleRegion only if a flow would be negative', w.Or(*[w.lt(e[k], 0.) for k in e]))
+        return
+    if outcome == 'undefined':
+        w.ensure('UndefinedChemical only if the stream holds a chemical unknown to the reaction',
+                 w.Or(*[w.ne(feed[k], 0.) for k in extra]))
+        return
+    got = read()
+    if stream is not None:
+        w.ensure('stream keeps its package', (stream.chemicals.IDs == IDs and stream._imol._chemicals is stream.chemicals
+                                              and all(sv.size == len(IDs) for _, sv in W.rows_of(stream))))
+    gu = _array_units(got, mw, stream_by_mass)
+    w.ensure('no negative flow on normal return', w.And(*[w.ge(got[k], 0.) for k in got]))
+    for k in e:
+        w.ensure(f'flow[{k[0]},{k[1]}] = stoichiometric update (round-off negatives >= -1e-12 zeroed)',
+                 w.Or(w.eq(gu[k], e[k]), w.And(w.lt(e[k], 0.), w.ge(e[k], -TOL), w.eq(gu[k], 0.))))
+    feasible = w.And(*[w.ge(e[k], 0.) for k in e])
+    by_mass_units = stream_by_mass or (basis == 'wt')      # weights per unit of the reacted data
+    for name, c in rows.items():
+        before = row_total(c, u, mw if by_mass_units else None)
+        after = row_total(c, gu, mw if by_mass_units else None)
+        w.ensure(f'{name} conserved', w.Implies(feasible, w.eq(after, before)))
+        if name == 'mass':
+            bound = TOL * sum([(c[ID] / mw[ID] if by_mass_units else c[ID]) for (ph, ID) in e], 0.)
+            w.ensure('mass within the round-off threshold otherwise', w.And(w.ge(after, before), w.le(after, before + bound)))
+    sp0 = all_specs(prog)[0]
+    w.canary('canary: reactant consumed = X * feed + 1', w.eq(u[sp0.r] - gu[sp0.r], sp0.X * u[sp0.r] + 1))
